@@ -175,3 +175,10 @@ class Alias:
 
     def floor(self, rid, *a):
         self.rep.floor(self.r, *a)
+
+    # positive controls of the original rule set are run by its own property's check; under an alias they are not repeated
+    def expect_control(self, *a, **kw):
+        pass
+
+    def control(self, *a, **kw):
+        pass
